@@ -391,10 +391,11 @@ pub fn run(tier: Tier) -> i32 {
     let cyc = value_cycle();
     let specs = grid_specs(64);
     let offsets = 8u64;
-    let ga = run_stage("grid-a", specs.len() as u64 * offsets, wall_cap, &mut total, &|i| grid_a(i, &specs, &cyc, offsets), &exec, &[100], 30);
+    let seeded_runs = gen::scaled(seeded_runs);
+    let ga = run_stage("grid-a", if gen::skip_fixed() { 1 } else { specs.len() as u64 * offsets }, wall_cap, &mut total, &|i| grid_a(i, &specs, &cyc, offsets), &exec, &[100], 30);
     let specs_b = grid_specs(b_max_p);
     let (nb, starts) = grid_b_count(&specs_b, cyc.len());
-    let gb = if ga.found.is_none() { Some(run_stage("grid-b", nb, wall_cap, &mut total, &|i| grid_b(i, &specs_b, &starts, &cyc), &exec, &[5000], 30)) } else { None };
+    let gb = if ga.found.is_none() { Some(run_stage("grid-b", if gen::skip_fixed() { 1 } else { nb }, wall_cap, &mut total, &|i| grid_b(i, &specs_b, &starts, &cyc), &exec, &[5000], 30)) } else { None };
     let seeded = if ga.found.is_none() && gb.as_ref().map_or(true, |g| g.found.is_none()) {
         Some(run_stage("seeded", seeded_runs, wall_cap, &mut total, &|i| generate(&mut Rng::new(run_seed(c.seed, PROP, "seeded", i)), tier), &exec, &[0], 24))
     } else {
